@@ -3,6 +3,7 @@ package main
 // Loading /repo (go/packages + go/ssa), contract discovery, function lookup.
 
 import (
+	"encoding/json"
 	"crypto/sha256"
 	"fmt"
 	"go/token"
@@ -19,6 +20,7 @@ import (
 )
 
 type Prog struct {
+	sigs map[string]recordedSig
 	repoDir     string
 	verifDir    string
 	modPath     string
@@ -329,4 +331,129 @@ func containsStr(xs []string, s string) bool {
 		}
 	}
 	return false
+}
+
+
+// ---------------------------------------------------------------------------
+// Recorded signatures: contracts refer to parameters, receivers and captured variables by the names
+// they had when the contract was written. `govc record-signatures` stores those names (and, for each
+// function under contract, which other functions under contract call it) in
+// /verif/contracts/signatures.json; when a parameter has since been renamed, the recorded name is
+// bound as an alias of the parameter in the same position, so a rename does not break the contract.
+
+type recordedSig struct {
+	Params   []string `json:"params"`
+	ParamTypes []string `json:"param_types,omitempty"`
+	FreeVars []string `json:"freevars"`
+	Callers  []string `json:"callers,omitempty"`
+}
+
+func (p *Prog) loadSignatures() {
+	if p.sigs != nil {
+		return
+	}
+	p.sigs = map[string]recordedSig{}
+	data, err := os.ReadFile(filepath.Join(p.verifDir, "contracts", "signatures.json"))
+	if err != nil {
+		return
+	}
+	json.Unmarshal(data, &p.sigs)
+}
+
+func (p *Prog) funcKey(fn *ssa.Function) string {
+	if k, ok := p.byFn[fn]; ok {
+		return p.shortKey(k)
+	}
+	if fn.Pkg == nil {
+		return fn.String()
+	}
+	return p.shortKey(fn.Pkg.Pkg.Path() + "." + fn.RelString(fn.Pkg.Pkg))
+}
+
+// aliasName binds the recorded name of parameter/free variable i of fn to the value bound under its current name.
+func (p *Prog) aliasName(binds map[string]specVal, fn *ssa.Function, kind string, i int, current string) {
+	if fn == nil {
+		return
+	}
+	p.loadSignatures()
+	rs, ok := p.sigs[p.funcKey(fn)]
+	if !ok {
+		return
+	}
+	names := rs.Params
+	if kind == "freevars" {
+		names = rs.FreeVars
+	}
+	if i >= len(names) || names[i] == current || names[i] == "" || names[i] == "_" {
+		return
+	}
+	if _, taken := binds[names[i]]; taken {
+		return
+	}
+	binds[names[i]] = binds[current]
+}
+
+func cmdRecordSignatures(o *options) int {
+	p, err := loadProg(o.repo, o.verif, nil, o.mirror)
+	if err != nil {
+		fmt.Println(err)
+		return 2
+	}
+	out := map[string]recordedSig{}
+	under := map[*ssa.Function]string{}
+	for key, fc := range p.cs.Funcs {
+		k := key
+		if fc.Variant != "" {
+			k = strings.TrimSuffix(key, "@"+fc.Variant)
+		}
+		if fn := p.funcs[k]; fn != nil {
+			under[fn] = p.shortKey(k)
+		}
+	}
+	for fn, sk := range under {
+		var rs recordedSig
+		for _, prm := range fn.Params {
+			rs.Params = append(rs.Params, prm.Name())
+			rs.ParamTypes = append(rs.ParamTypes, types.TypeString(prm.Type(), func(pk *types.Package) string { return pk.Path() }))
+		}
+		for _, fv := range fn.FreeVars {
+			rs.FreeVars = append(rs.FreeVars, fv.Name())
+		}
+		out[sk] = rs
+	}
+	// callers among the functions under contract (static calls, go and defer statements)
+	for fn, sk := range under {
+		for _, b := range fn.Blocks {
+			for _, ins := range b.Instrs {
+				ci, ok := ins.(ssa.CallInstruction)
+				if !ok {
+					continue
+				}
+				if callee := ci.Common().StaticCallee(); callee != nil {
+					if ck, ok := under[callee]; ok && ck != sk {
+						rs := out[ck]
+						dup := false
+						for _, c := range rs.Callers {
+							if c == sk {
+								dup = true
+							}
+						}
+						if !dup {
+							rs.Callers = append(rs.Callers, sk)
+							sort.Strings(rs.Callers)
+							out[ck] = rs
+						}
+					}
+				}
+			}
+		}
+	}
+	data, _ := json.MarshalIndent(out, "", " ")
+	path := filepath.Join(o.verif, "contracts", "signatures.json")
+	if err := os.WriteFile(path, data, 0o644); err != nil {
+		fmt.Println(err)
+		return 2
+	}
+	fmt.Printf("recorded %d signatures in %s\n", len(out), path)
+	return 0
 }
